@@ -18,6 +18,7 @@ import Scalibr.Spec.Semantic.RubyGems
 import Scalibr.Spec.Semantic.NuGet
 import Scalibr.Spec.Semantic.Cran
 import Scalibr.Spec.Semantic.RedHat
+import Scalibr.Spec.Semantic.Alpine
 open Scalibr Scalibr.Semantic Scalibr.Wire
 
 def decodeStr (h : String) : Option (List Char) :=
@@ -63,6 +64,11 @@ def specFields (f : Fam) (a b : List Char) : String :=
   | .redhat =>
     match RpmSpec.specParse a, RpmSpec.specParse b with
     | some x, some y => specStr (RpmSpec.specCmp x y)
+    | _, _ => ""
+  | .alpine =>
+    -- the documented suffix rule speaks about two versions that differ in their suffixes only
+    match ApkSpec.specParse a, ApkSpec.specParse b with
+    | some x, some y => if x.wf && y.wf && ApkSpec.sameBase x y then specStr (ApkSpec.specCmp x y) else ""
     | _, _ => ""
   | _ => ""
 
